@@ -121,6 +121,12 @@ def run_case(case, col=None):
             # (alternately seekable and non-seekable; behind the caching wrapper the position is the number of octets the
             # source has handed out)
             piped = bool(ci % 2)
+            if piped and len(data) > io.DEFAULT_BUFFER_SIZE and _f09_region(T, encs):
+                # (behind the caching wrapper, beyond its buffer size, with definite-length nested elements: known finding F09,
+                # which C11 reports)
+                if col is not None:
+                    col.exclude('long non-seekable clocked stream with definite-length nested elements (known finding F09, reported by C11)')
+                continue
             st = (streams.ClockPipe if piped else streams.ClockSeekable)(data, sizes, arrivals, eof_tick)
             got, steps, err = [], 0, None
             try:
